@@ -12,9 +12,6 @@ namespace Lumina.Props.C47
 open Lumina.Util Lumina.Model.Bech32 Lumina.Proofs.Bech32
 open Lumina.Spec.C47 (K Obs specDisplay specRoundTrip specParse specCorrupt)
 
-def specKind : Kind → K
-  | .account => .account | .validator => .validator | .consensus => .consensus
-
 def obsOf : Except Err (Kind × Bytes) → Obs
   | .ok (k, id) => .ok (specKind k) id
   | .error _ => .err
@@ -29,22 +26,6 @@ theorem consts_eq :
     (∀ k, (specKind k).pfx = k.pfx) := by
   refine ⟨by decide, by decide, by decide, by decide, by decide, ?_⟩
   intro k; cases k <;> decide
-
-theorem pfx_facts (k : Kind) :
-    (∀ c ∈ k.pfx, isUpper c = false) ∧ hrpParse k.pfx = true ∧ kindOfStr k.pfx = some k ∧
-    k.pfx.length + 1 + 32 + 6 ≤ 1023 ∧ (specKind k).pfx = k.pfx ∧
-    hrpFes k.pfx = Lumina.Spec.C47.hrpExpand k.pfx ∧ (∀ x ∈ hrpFes k.pfx, x < 32) := by
-  cases k <;> decide
-
-theorem map_toNat_lt (id : Bytes) : ∀ b ∈ id.map UInt8.toNat, b < 256 := by
-  intro b hb
-  obtain ⟨x, _, rfl⟩ := List.mem_map.mp hb
-  exact x.toNat_lt
-
-theorem map_ofNat_toNat (id : Bytes) : (id.map UInt8.toNat).map UInt8.ofNat = id := by
-  induction id with
-  | nil => rfl
-  | cons b id ih => simp [ih]
 
 /-- parsing a displayed address with `string_to_kind_and_id` gives back kind and id -/
 theorem stringToKindAndId_addressToString (k : Kind) (id : Bytes) (h : id.length = 20) :
